@@ -39,7 +39,7 @@ class Violation(Exception):
 
 
 class Outcome:
-    __slots__ = ('violations', 'log', 'stats', 'sig', 'sim_time', 'states')
+    __slots__ = ('violations', 'log', 'stats', 'sig', 'sim_time', 'states', 'known')
 
     def __init__(self):
         self.violations = []      # [(clause, step, detail)]
@@ -48,6 +48,7 @@ class Outcome:
         self.sig = None           # signature string if the run is non-trivial else None
         self.sim_time = 0.0       # simulated time covered (world-defined unit)
         self.states = ()          # abstract states visited (hashable), for the reach measure
+        self.known = []           # [(clause, detail)] deviations tolerated because known_findings.json lists the clause
 
     def digest(self):
         h = hashlib.sha256()
@@ -253,6 +254,21 @@ def load_known():
         return json.load(f).get('findings', [])
 
 
+_TOLERATED = None
+
+
+def tolerated(prop):
+    """Clauses of `prop` listed as status=known with match=clause: the world reports them in Outcome.known
+    (never as violations) - the clause itself identifies the failing call site."""
+    global _TOLERATED
+    if _TOLERATED is None:
+        _TOLERATED = {}
+        for k in load_known():
+            if k.get('status') == 'known' and k.get('match') == 'clause':
+                _TOLERATED.setdefault(k['property'], set()).add(k['clause'])
+    return _TOLERATED.get(prop, frozenset())
+
+
 def skeleton(case):
     w = world_for(case['prop'])
     return w.skeleton(case)
@@ -265,6 +281,8 @@ def match_known(case, clause, known):
             continue
         if k.get('clause') != clause:
             continue
+        if k.get('match') == 'clause':
+            return k
         for ks in k.get('skeletons', []):
             if ks == sk:
                 return k
@@ -297,6 +315,8 @@ def _chunk_worker(conn, prop, seed, tier, indices, avoid_frac_known, want_sample
                 return
             done += 1
             stats.update(out.stats)
+            for kc, _ in out.known:
+                stats['known-finding.' + kc] += 1
             sim_time += out.sim_time
             if out.sig is not None:
                 sigs.add(h64(out.sig))
